@@ -929,6 +929,24 @@ impl TextSelectionOperator {
         }
     }
 
+    // Is this operator negated?
+    pub fn negate(&self) -> bool {
+        match self {
+            Self::Equals { negate, .. }
+            | Self::Overlaps { negate, .. }
+            | Self::Embeds { negate, .. }
+            | Self::Embedded { negate, .. }
+            | Self::Before { negate, .. }
+            | Self::After { negate, .. }
+            | Self::Precedes { negate, .. }
+            | Self::Succeeds { negate, .. }
+            | Self::SameBegin { negate, .. }
+            | Self::SameEnd { negate, .. }
+            | Self::InSet { negate, .. }
+            | Self::SameRange { negate, .. } => *negate,
+        }
+    }
+
     pub fn as_str(&self) -> &'static str {
         match self {
             Self::Equals { .. } => "EQUALS",
@@ -2095,6 +2113,12 @@ impl<'store> FindTextSelectionsIter<'store> {
     /// The reference text selection is always in the subject position for the associated [`TextSelectionOperator`] (`operator()`)
     /// The boolean returns the direction of iteration (true = forward, false = backwards)
     fn init_textseliters(&mut self) {
+        if self.operator.negate() {
+            //a negated relation holds for text selections anywhere in the text, not just
+            //near the reference: consider all of them and let the test decide
+            self.textseliters.push((self.resource.iter(), true));
+            return;
+        }
         match self.operator {
             TextSelectionOperator::Embeds { .. } => {
                 for reftextselection in self.refset.iter() {
